@@ -17,7 +17,7 @@ fi
 # 2. lock file seeded from the repository's
 [ -f harness/Cargo.lock ] || cp /repo/Cargo.lock harness/Cargo.lock
 # 3. test PKI for the TLS lanes
-[ -f build/pki/ca.pem ] || scripts/mkpki.sh build/pki
+[ -f build/pki/dnsonly.p12 ] || { rm -rf build/pki; scripts/mkpki.sh build/pki; }
 # 4. build
 (cd harness && cargo build --release --offline 2>&1 | tail -3)
 echo "setup ok"
